@@ -123,6 +123,9 @@ func timeNanos(t time.Time) int64 { panic("ghost builtin") }
 // gclock is the ghost clock: the latest instant returned by time.Now / used by time.Since.
 func gclock() int64 { panic("ghost builtin") }
 
+// mapRef is the identity of a map object (0 for nil).
+func mapRef[K comparable, V any](m map[K]V) int { panic("ghost builtin") }
+
 // chanRef is the identity of a channel.
 func chanRef[T any](c chan<- T) int { panic("ghost builtin") }
 
@@ -856,7 +859,12 @@ func specASResp(m message.Message) *message.AssociationSetupResponse {
 //@   ensures C08.port.keep: err != nil ==> ep.ports == old[portRange](ep.ports)
 //@   ensures C08.port.net: ep.IPNet == old[*net.IPNet](ep.IPNet)
 
+// Ghost log "flowdesc": one entry per parseFlowDesc call; field flowdesc.ipf identifies the result.
 //@ func parseFlowDesc(flowDesc string, ueIP string) (ipf *ipFilterRule, err error)
+//@   appends flowdesc
+//@   defines gfield("flowdesc.ipf", gentry("flowdesc", glen("flowdesc")-1)) == uint64(refOf(ipf))
+//@   ensures C08.flow.logged: glen("flowdesc") == old[int](glen("flowdesc"))+1
+//@   freshwrites net.IPNet, E:uint8
 //@   ensures C08.flow.result: (err == nil) <==> (ipf != nil)
 //@   ensures C08.flow.nets: err == nil ==> ipf.src.IPNet != nil && ipf.dst.IPNet != nil && len(ipf.src.IPNet.IP) >= 4 && len(ipf.dst.IPNet.IP) >= 4 && len(ipf.src.IPNet.Mask) >= 4 && len(ipf.dst.IPNet.Mask) >= 4
 //@   ensures C08.flow.ports: err == nil ==> (ipf.src.ports.low <= ipf.src.ports.high) && (ipf.dst.ports.low <= ipf.dst.ports.high)
@@ -866,3 +874,68 @@ func specASResp(m message.Message) *message.AssociationSetupResponse {
 //@   loop 1 invariant C08.flow.l.ports: ipf.src.ports.low <= ipf.src.ports.high && ipf.dst.ports.low <= ipf.dst.ports.high
 //@   loop 1 invariant C08.flow.l.nets: (ipf.src.IPNet != nil ==> len(ipf.src.IPNet.IP) >= 4 && len(ipf.src.IPNet.Mask) >= 4) && (ipf.dst.IPNet != nil ==> len(ipf.dst.IPNet.IP) >= 4 && len(ipf.dst.IPNet.Mask) >= 4)
 //@   loop 1 invariant C08.flow.l.dir: ipf.direction == "in" || ipf.direction == "out"
+
+func specFlowResult(e int) *ipFilterRule {
+	return ptrAt[ipFilterRule](int(gfield("flowdesc.ipf", e)))
+}
+
+// specOriented: the application filter of p is the flow description result f, oriented by the PDR's
+// source interface (core: packet source = rule "from"; access: swapped), including the documented
+// port workaround (a non-wildcard port on the UE side of the rule moves to the other side).
+func specOriented(p *pdr, f *ipFilterRule) bool {
+	if p.srcIface == core {
+		return p.appFilter.dstIP == ip2int(f.dst.IPNet.IP) && p.appFilter.dstIPMask == ipMask2int(f.dst.IPNet.Mask) &&
+			p.appFilter.srcIP == ip2int(f.src.IPNet.IP) && p.appFilter.srcIPMask == ipMask2int(f.src.IPNet.Mask) &&
+			implies(f.dst.ports.isWildcardMatch(), p.appFilter.srcPortRange == f.src.ports && p.appFilter.dstPortRange == f.dst.ports) &&
+			implies(!f.dst.ports.isWildcardMatch(), p.appFilter.srcPortRange == f.dst.ports && p.appFilter.dstPortRange == newWildcardPortRange())
+	}
+	if p.srcIface == access {
+		return p.appFilter.srcIP == ip2int(f.dst.IPNet.IP) && p.appFilter.srcIPMask == ipMask2int(f.dst.IPNet.Mask) &&
+			p.appFilter.dstIP == ip2int(f.src.IPNet.IP) && p.appFilter.dstIPMask == ipMask2int(f.src.IPNet.Mask) &&
+			implies(f.dst.ports.isWildcardMatch(), p.appFilter.dstPortRange == f.src.ports && p.appFilter.srcPortRange == f.dst.ports) &&
+			implies(!f.dst.ports.isWildcardMatch(), p.appFilter.dstPortRange == f.dst.ports && p.appFilter.srcPortRange == newWildcardPortRange())
+	}
+
+	return true
+}
+
+func specProtoOK(p *pdr, f *ipFilterRule, oldProto, oldMask uint8) bool {
+	if f.proto != reservedProto {
+		return p.appFilter.proto == f.proto && p.appFilter.protoMask == 255
+	}
+
+	return p.appFilter.proto == oldProto && p.appFilter.protoMask == oldMask
+}
+
+//@ func (p *pdr) parseSDFFilter(ie *ie.IE) (err error)
+//@   requires p != nil && ie != nil
+//@   ensures C08.sdf.atmost: glen("flowdesc") <= old[int](glen("flowdesc"))+1
+//@   ensures C08.sdf.ok: err == nil ==> glen("flowdesc") == old[int](glen("flowdesc"))+1 && specOriented(p, specFlowResult(gentry("flowdesc", old[int](glen("flowdesc"))))) && specProtoOK(p, specFlowResult(gentry("flowdesc", old[int](glen("flowdesc")))), old[uint8](p.appFilter.proto), old[uint8](p.appFilter.protoMask))
+//@   ensures C08.sdf.untouched: err != nil ==> p.appFilter == old[applicationFilter](p.appFilter)
+//@   ensures C08.sdf.frame: p.srcIface == old[uint8](p.srcIface) && p.ueAddress == old[uint32](p.ueAddress)
+
+// pfdInv: every stored application PFD is filed under its own application ID.
+func pfdInv(m map[string]appPFD) bool {
+	return forall(func(k string) bool { return implies(has(m, k), m[k].appID == k) })
+}
+
+func specPFDResp(m message.Message) *message.PFDManagementResponse {
+	return ptrAt[message.PFDManagementResponse](dynRef(m))
+}
+
+func specPFDReq(m message.Message) *message.PFDManagementRequest {
+	return ptrAt[message.PFDManagementRequest](dynRef(m))
+}
+
+//@ func (pConn *PFCPConn) handlePFDMgmtRequest(msg message.Message) (reply message.Message, err error)
+//@   requires connInv(pConn) && msgWF(msg) && pfdInv(pConn.appPFDs)
+//@   requires typeIs[*message.PFDManagementRequest](msg) ==> (forall a int :: lo(specPFDReq(msg).ApplicationIDsPFDs) <= a && a < hi(specPFDReq(msg).ApplicationIDsPFDs) ==> at(specPFDReq(msg).ApplicationIDsPFDs, a) != nil)
+//@   freshwrites map PFCPConn.appPFDs
+//@   ensures C08.pfd.type: !typeIs[*message.PFDManagementRequest](msg) ==> reply == nil && err != nil && mapRef(pConn.appPFDs) == old[int](mapRef(pConn.appPFDs))
+//@   ensures C08.pfd.inv: pfdInv(pConn.appPFDs)
+//@   ensures C08.pfd.accepted: typeIs[*message.PFDManagementRequest](msg) && err == nil ==> pConn.appPFDs != nil && !allocated(pConn.appPFDs) && reply != nil && typeIs[*message.PFDManagementResponse](reply) && specIEu8(specPFDResp(reply).Cause) == ie.CauseRequestAccepted
+//@   ensures C08.pfd.rejected: typeIs[*message.PFDManagementRequest](msg) && err != nil ==> mapRef(pConn.appPFDs) == old[int](mapRef(pConn.appPFDs)) && reply != nil && typeIs[*message.PFDManagementResponse](reply) && specIEu8(specPFDResp(reply).Cause) == ie.CauseRequestRejected
+//@   ensures C08.pfd.seq: reply != nil ==> specPFDResp(reply).Header != nil && specPFDResp(reply).Header.SequenceNumber == specPFDReq(msg).Header.SequenceNumber
+//@   ensures C08.pfd.nosend: glen("pfcpout") == old[int](glen("pfcpout"))
+//@   loop 1 invariant C08.pfd.l1: rangeidx+1 <= len(pfdmreq.ApplicationIDsPFDs) && pConn.appPFDs != nil && !allocated(pConn.appPFDs) && pfdInv(pConn.appPFDs)
+//@   loop 2 invariant C08.pfd.l2: rangeidx+1 <= len(pfdCtx) && pConn.appPFDs != nil && !allocated(pConn.appPFDs) && pfdInv(pConn.appPFDs) && applicationPFD.appID == id
